@@ -472,10 +472,10 @@ def list_slice(interp, lst, sl):
 
 
 def list_setitem(interp, lst, idx, v):
-    interp.writes.append((lst, "setitem"))
     if isinstance(idx, VSlice):
         raise OutOfReach("slice assignment on a list")
     i = _norm_index(interp, lst, idx)
+    interp.writes.append((lst, "setitem"))
     if lst.items is not None:
         c = conc(i)
         if c is None:
@@ -501,10 +501,10 @@ def _ite_value(c, a, b):
 
 
 def list_delitem(interp, lst, idx):
-    interp.writes.append((lst, "delitem"))
     if isinstance(idx, VSlice):
         raise OutOfReach("del of a list slice")
     i = _norm_index(interp, lst, idx)
+    interp.writes.append((lst, "delitem"))
     hook = getattr(lst, "on_delitem", None)
     if hook is not None:
         return hook(interp, lst, i)
